@@ -4,6 +4,7 @@ import AslProofs.XdlChunks
 import AslProofs.JsonSpec
 import AslProofs.XdlRfcMain
 import AslProofs.XdlPrefix
+import AslProofs.XdlPrefixStr
 /-!
 # C06 — JSON/XDL decoding is total, memory-safe, chunk-independent and RFC 8259 conformant
 
@@ -172,21 +173,21 @@ example : Rfc8259.SerDoc
 
 /-! ## prefix rejection -/
 
-/-- a text that stops before the final closing byte of a top-level array, object or string is rejected -/
-def prefix_reject_full : Prop :=
-  ∀ (v : JV) (a x p s : Bytes), Rfc8259.Ws a → Rfc8259.SerV v x →
-    ((∃ l, v = .arr l) ∨ (∃ ms, v = .obj ms) ∨ (∃ t, v = .str t)) →
-    a ++ x = p ++ s → s ≠ [] → decode p = some none
-
-/-- proved part: a text that stops anywhere before the closing bracket/brace of a top-level array or
-    object (nesting ≤ 1000), after any leading white space, is rejected — whatever state the cut leaves the
-    machine in (inside a number, a string, an escape, a nested container …) -/
-theorem prefix_reject_partial (v : JV) (a x p s : Bytes) (ha : Rfc8259.Ws a) (hx : Rfc8259.SerV v x)
-    (hv : (∃ l, v = .arr l) ∨ (∃ ms, v = .obj ms)) (hd : Rfc8259.depth v ≤ 1000)
+/-- a text that stops anywhere before the final closing byte of a top-level array, object or string
+    (nesting ≤ 1000 = XDL_MAX_DEPTH), after any leading white space, is rejected — whatever state the cut
+    leaves the machine in (inside a number, a string, a `\\u` escape, a nested container, between tokens …) -/
+theorem prefix_reject (v : JV) (a x p s : Bytes) (ha : Rfc8259.Ws a) (hx : Rfc8259.SerV v x)
+    (hv : (∃ l, v = .arr l) ∨ (∃ ms, v = .obj ms) ∨ (∃ t, v = .str t)) (hd : Rfc8259.depth v ≤ 1000)
     (heq : a ++ x = p ++ s) (hs : s ≠ []) : decode p = some none := by
-  rcases hv with ⟨l, rfl⟩ | ⟨ms, rfl⟩
+  rcases hv with ⟨l, rfl⟩ | ⟨ms, rfl⟩ | ⟨t, rfl⟩
   · exact AslProofs.XdlPrefix.prefix_array l a x p s ha hx hd heq hs
   · exact AslProofs.XdlPrefix.prefix_object ms a x p s ha hx hd heq hs
+  · exact AslProofs.XdlPrefix.prefix_string t a x p s ha hx heq hs
+
+/-- the frame property behind it: adding contexts below the stack does not change a run that does not fault -/
+theorem frame (E : List Ctx) (cs : Bytes) (p : PState) (b : Bool) (q : PState) (h : loop p cs = some (b, q)) :
+    loop { p with ctx := p.ctx ++ E } cs = some (b, { q with ctx := q.ctx ++ E }) :=
+  AslProofs.XdlFrame.loop_ext E cs p b q h
 
 /-! ## non-vacuity: the model decodes, rejects, and depends on its input -/
 
